@@ -422,6 +422,16 @@ impl Name {
 proof fn lemma_elems_step(a: Seq<Primitive>, i: nat)
     ensures 1 <= i < a.len() ==> spell_elems(a, i + 1) == spell_elems(a, i) + SEP_ELEM() + spell(a[i as int])
 {}
+proof fn lemma_elems_first(a: Seq<Primitive>)
+    ensures spell_elems(a, 0) == Seq::<u8>::empty(), a.len() >= 1 ==> spell_elems(a, 1) == spell(a[0])
+{}
+proof fn lemma_list_serializable_all(a: Seq<Primitive>)
+    ensures list_serializable(a, a.len()) ==> forall|i: int| 0 <= i < a.len() ==> serializable(#[trigger] a[i])
+{
+    if list_serializable(a, a.len()) {
+        assert forall|i: int| 0 <= i < a.len() implies serializable(#[trigger] a[i]) by { lemma_list_serializable(a, a.len(), i); }
+    }
+}
 proof fn lemma_entries_step(e: Seq<(Name, Primitive)>, i: nat)
     ensures i < e.len() ==> spell_entries(e, i + 1) == spell_entries(e, i) + spell_key(e[i as int].0) + SEP_KEY() + spell(e[i as int].1) + SEP_ENTRY()
 {}
